@@ -149,6 +149,10 @@ def check(prog: Program, res: Result) -> None:
     c17.check_use(prog, res, rule="C03-order")
     res.floor("C03-out", 4)
     res.floor("C03-own", 2)
+    from . import c06, c12
+    res.borrow(c06.check_rough, "C03-peaks", prog)
+    res.borrow(c06.check_refine, "C03-peaks", prog)
+    res.borrow(c12.check_split, "C03-peaks", prog)
     res.assumptions += ["that grouping returns exactly the labelled animals (numerical PAF integral) is not decided", "channel numbering 2e+c is pinned by the existing tests"]
 
 
